@@ -231,9 +231,11 @@ def run_scenarios(seed, start, count, clauses):
             m = b["mineral"]()
             snaps_before = []
             F = b["F0"]
+            returned = []
             for a_, b_ in zip(b["times"][:-1], b["times"][1:]):
                 before = [(np.array(o, copy=True), np.array(f, copy=True)) for o, f in zip(m.orientations, m.fractions)]
                 F = m.update_orientations(params, F, b["get_L"], (float(a_), float(b_), b["get_pos"]))
+                returned.append((F, np.array(F, copy=True)))
                 if "C01" in clauses:
                     if len(m.orientations) != len(before) + 1:
                         msgs.append("update did not append exactly one snapshot")
@@ -246,9 +248,48 @@ def run_scenarios(seed, start, count, clauses):
                     fl = m.fractions[-1]
                     Sn = None
             strain = strain_of(b["get_L"], b["get_pos"], b["times"])
+            if ("C01" in clauses or "C08" in clauses) and idx % 7 == 3:
+                # save under a postfix (next to an un-postfixed mineral of the other phase), load into a mineral of another size,
+                # continue the history: the continued mineral must behave like the uninterrupted one
+                import os
+                import tempfile
+
+                tmpd = tempfile.mkdtemp(prefix="pvscen", dir=os.environ.get("VERIF_SCRATCH"))
+                pth = os.path.join(tmpd, "hist.npz")
+                other_m = pydrex.Mineral(phase=core.MineralPhase(1 - sc["phase"]), fabric=core.MineralFabric.enstatite_AB if sc["phase"] == 0 else core.MineralFabric.olivine_A, n_grains=7, seed=4)
+                other_m.save(pth)
+                m.save(pth, "cont")
+                mc = pydrex.Mineral(n_grains=n + 11, seed=5)
+                mc.load(pth, "cont")
+                if (mc.phase, mc.fabric, mc.regime, mc.n_grains) != (m.phase, m.fabric, m.regime, n):
+                    msgs.append(f"a mineral restored from a postfixed member of a mixed archive has phase/fabric/regime/n_grains {int(mc.phase)}/{int(mc.fabric)}/{int(mc.regime)}/{mc.n_grains}, not {int(m.phase)}/{int(m.fabric)}/{int(m.regime)}/{n}")
+                else:
+                    t_a, t_b = float(b["times"][-1]), float(b["times"][-1]) + 0.2
+                    mu = copy.deepcopy(m)
+                    Fc = mc.update_orientations(params, F, b["get_L"], (t_a, t_b, b["get_pos"]))
+                    Fu = mu.update_orientations(params, F, b["get_L"], (t_a, t_b, b["get_pos"]))
+                    if not (np.array_equal(mc.orientations[-1], mu.orientations[-1]) and np.array_equal(mc.fractions[-1], mu.fractions[-1]) and np.array_equal(Fc, Fu)):
+                        msgs.append("a history continued after save / load differs from the uninterrupted history")
+                    check_snapshots(mc, n, len(mc.orientations) - 1, strain + 0.2, msgs, chi)
+                try:
+                    os.unlink(pth); os.rmdir(tmpd)
+                except OSError:
+                    pass
             if "C01" in clauses:
                 check_snapshots(m, n, N, strain, msgs, chi)
             if "C06" in clauses:
+                if any(not np.array_equal(Fo, Fc) for Fo, Fc in returned):
+                    msgs.append("a deformation gradient returned by an earlier update was modified by a later update (the returned array aliases internal state)")
+                # bulk update on a time axis far from zero (t0 = 1e6): same deformation gradient as on the original axis
+                if sc["L_kind"] in ("simple", "pure", "axisym", "general", "trace") and idx % 3 == 0:
+                    T0 = 1.0e6
+                    mm1, mm2 = b["mineral"](), b["mineral"]()
+                    Fs = b["F0"]
+                    for a_, b_ in zip(b["times"][:-1], b["times"][1:]):
+                        Fs = pydrex.update_all([mm1, mm2], params, Fs, b["get_L"], (float(a_) + T0, float(b_) + T0, (lambda t, gp=b["get_pos"]: gp(t - T0))))
+                    rel_s = np.abs(Fs - F).max() / max(1e-12, np.abs(F).max())
+                    if not np.isfinite(rel_s) or rel_s > 5e-3 + 1e-3 * (N + 2 * strain):
+                        msgs.append(f"bulk update on the time axis shifted by 1e6 returns a deformation gradient off by {rel_s:.3e}")
                 Fref = reference_F(b["get_L"], b["get_pos"], b["F0"], float(b["times"][0]), float(b["times"][-1]))
                 tol = 5e-3 + 1e-3 * (N + 2 * strain)
                 rel = np.abs(F - Fref).max() / max(1e-12, np.abs(Fref).max())
